@@ -331,6 +331,11 @@ pub fn menu(prop: &str, tier: &str, depth: usize, e: &Exec) -> Vec<Op> {
                     }
                 }
             }
+            // an append with a head:N request that the store refuses (meta at the nesting limit):
+            // a refused frame has no effect, in particular no eviction
+            if n >= 1 && n <= 2 {
+                out.push(Op::Append { topic: "a".into(), ctx: Ctx::Zero, ttl: "head:1".into(), meta: Some(json!({"$deep": 127})), body: None });
+            }
             if e.ctxs.is_empty() {
                 out.push(Op::Register { ctx: Ctx::Zero, ttl: "".into() });
             } else if e.ctxs.len() == 1 {
